@@ -137,11 +137,15 @@ func (e StdEng) Reduce(fn interface{}, a Tensor, axis int, defaultValue interfac
 		dimSize = a.Shape()[axis]
 		err = e.E.ReduceLast(typ, dataA, dataReuse, dimSize, defaultValue, fn)
 	default:
-		dim0 := a.Shape()[0]
+		if at.DataOrder().IsColMajor() {
+			return nil, errors.Errorf("NYI: colmajor")
+		}
+		// everything before the axis forms the outer loop; one outer block is the axis times everything after it
 		dimSize := a.Shape()[axis]
-		outerStride := a.Strides()[0]
 		stride := a.Strides()[axis]
-		expected := reuse.Strides()[0]
+		dim0 := ProdInts(a.Shape()[:axis])
+		outerStride := dimSize * stride
+		expected := stride
 		err = e.E.ReduceDefault(typ, dataA, dataReuse, dim0, dimSize, outerStride, stride, expected, fn)
 	}
 	retVal = reuse
@@ -182,11 +186,15 @@ func (e StdEng) OptimizedReduce(a Tensor, axis int, firstFn, lastFn, defaultFn, 
 		dimSize = a.Shape()[axis]
 		err = e.E.ReduceLast(typ, dataA, dataReuse, dimSize, defaultValue, lastFn)
 	default:
-		dim0 := a.Shape()[0]
+		if at.DataOrder().IsColMajor() {
+			return nil, errors.Errorf("NYI: colmajor")
+		}
+		// everything before the axis forms the outer loop; one outer block is the axis times everything after it
 		dimSize := a.Shape()[axis]
-		outerStride := a.Strides()[0]
 		stride := a.Strides()[axis]
-		expected := reuse.Strides()[0]
+		dim0 := ProdInts(a.Shape()[:axis])
+		outerStride := dimSize * stride
+		expected := stride
 		err = e.E.ReduceDefault(typ, dataA, dataReuse, dim0, dimSize, outerStride, stride, expected, defaultFn)
 	}
 	retVal = reuse
